@@ -420,35 +420,233 @@ def random_collapse(out: hlib.RecWriter, rng: random.Random, n_hist: int) -> Non
 
 
 def random_nodes(out: hlib.RecWriter, rng: random.Random, n_hist: int) -> None:
-    """Node IDs (the 'nodeid' key of entities in the map)."""
+    """Node IDs (the 'nodeid' key of entities in the map).  Histories start from an empty map or a
+    parsed document with duplicated / missing / non-positive node IDs.  Removed entities are
+    sometimes kept alive by the caller and only destroyed later (after their ID has been recycled),
+    edited while outside the map, removed a second time, re-added, or copied (also in a batch):
+    the node IDs in the map must stay distinct, positive and reserved in the allocator throughout."""
+    pool = ['-1', '0', '1', '2', '2', '3', '5', '5', 'x']
     for _ in range(n_hist):
-        vmf = VMF()
-        live = []
         hist = []
-        for _ in range(rng.randint(2, 14)):
+        if rng.random() < 0.3:
+            doc = 'world\n{\n"id" "1"\n"classname" "worldspawn"\n}\n'
+            start = [rng.choice(pool) for _ in range(rng.randint(1, 5))]
+            for d in start:
+                doc += 'entity\n{\n"classname" "info_node"\n'
+                if rng.random() < 0.9:
+                    doc += '"%s" "%s"\n' % (rng.choice(['nodeid', 'nodeid', 'NodeID']), d)
+                doc += '}\n'
+            vmf = VMF.parse(Keyvalues.parse(doc))
+            hist.append(['parse'] + start)
+        else:
+            vmf = VMF()
+        live = list(vmf.entities)
+        kept = []       # removed from the map, but still referenced
+        removed_twice = []
+        for _ in range(rng.randint(2, 18)):
             r = rng.random()
-            if r < 0.6 or not live:
-                d = rng.choice(['-1', '0', '1', '2', '2', '3', '5', '5', 'x', str(rng.randint(1, 9))])
+            if r < 0.38 or not live:
+                d = rng.choice(pool + [str(rng.randint(1, 9))])
                 live.append(vmf.create_ent('info_node', nodeid=d))
                 hist.append(['create', d])
-            elif r < 0.8:
+            elif r < 0.5:
                 e = live.pop(rng.randrange(len(live)))
-                hist.append(['remove', e['nodeid']])
+                hist.append(['remove', e['nodeid', '']])
                 e.remove()
+                del e
+            elif r < 0.62:
+                e = live.pop(rng.randrange(len(live)))
+                hist.append(['remove_keep', e['nodeid', '']])
+                vmf.remove_ent(e)
+                kept.append(e)
+                del e
+            elif r < 0.68 and kept:
+                e = kept.pop(rng.randrange(len(kept)))
+                hist.append(['destroy_kept', e['nodeid', '']])
+                del e
+                gc.collect()
+            elif r < 0.74 and kept:
+                e = kept.pop(rng.randrange(len(kept)))
+                hist.append(['readd_kept', e['nodeid', '']])
+                vmf.add_ent(e)
+                live.append(e)
+                del e
+            elif r < 0.78 and kept:
+                e = rng.choice(kept)
+                hist.append(['remove_again', e['nodeid', '']])
+                vmf.remove_ent(e)
+                del e
+            elif r < 0.82 and kept:
+                e = rng.choice(kept)
+                d = rng.choice(pool)
+                hist.append(['set_kept', e['nodeid', ''], d])
+                if rng.random() < 0.3:
+                    del e['nodeid']
+                else:
+                    e['nodeid'] = d
+                del e
+            elif r < 0.88:
+                src = rng.choice(live)
+                hist.append(['copy', src['nodeid', '']])
+                new = src.copy()
+                vmf.add_ent(new)
+                live.append(new)
+                del src, new
+            elif r < 0.91:
+                srcs = [rng.choice(live) for _ in range(rng.randint(1, 3))]
+                hist.append(['copy_batch'] + [x['nodeid', ''] for x in srcs])
+                news = [x.copy() for x in srcs]
+                vmf.add_ents(news)
+                live.extend(news)
+                del srcs, news
+            elif r < 0.95:
+                e = rng.choice(live)
+                d = rng.choice(pool)
+                hist.append(['set', e['nodeid', ''], d])
+                e['nodeid'] = d
                 del e
             else:
                 e = rng.choice(live)
-                d = rng.choice(['1', '2', '5', '0', '-4'])
-                hist.append(['set', e['nodeid'], d])
-                e['nodeid'] = d
+                hist.append(['delkey', e['nodeid', '']])
+                del e['nodeid']
+                del e
             ids = []
             for e in vmf.entities:
                 try:
-                    ids.append(int(e['nodeid']))
+                    ids.append(int(e['nodeid', '']))
                 except ValueError:
                     pass
-            out.write({'k': 'parse', 'kind': 'node', 'ids': ids, 'n': len(ids),
+            e = None
+            out.write({'k': 'owned', 'kind': 'node', 'ids': ids, 'used': sorted(vmf.node_id),
                        'sig': {'kind': 'node', 'action': hist[-1][0], 'src': 'random'}, 'hist': list(hist)})
+
+
+NOKEY, NONNUM = -100, -99
+
+
+class NodeWorld:
+    """Real VMF + entity slots for the NodeId model; project() is the model's state."""
+    def __init__(self, slots):
+        self.vmf = VMF()
+        self.slots = {o: None for o in slots}
+        self.n = 0
+
+    def project(self):
+        ents = {}
+        for o, e in self.slots.items():
+            if e is None:
+                ents[o] = {'w': 'none', 'key': NOKEY}
+                continue
+            w = 'in' if any(e is x for x in self.vmf.entities) else 'out'
+            if 'nodeid' not in e:
+                key = NOKEY
+            else:
+                try:
+                    key = int(e['nodeid'])
+                except ValueError:
+                    key = NONNUM
+            ents[o] = {'w': w, 'key': key}
+        man = self.vmf.node_id
+        return {'man': {'used': sorted(man._used), 'pos': man.search_pos}, 'ents': ents}
+
+    @staticmethod
+    def text(k):
+        return 'seven' if k == NONNUM else str(k)
+
+    def apply(self, a):
+        self.n += 1
+        op = a['op']
+        # the slot decides the spelling of the key, the step count which of two equivalent calls is used
+        spell = {'e1': 'nodeid', 'e2': 'NodeID', 'e3': 'NODEID'}.get(a.get('p', a.get('o')), 'nodeid')
+        if op == 'construct':
+            keys = {'classname': 'info_node'}
+            if a['k'] != NOKEY:
+                keys[spell] = self.text(a['k'])
+            self.slots[a['o']] = Entity(self.vmf, keys=keys)
+        elif op == 'create':
+            if a['k'] == NOKEY:
+                self.slots[a['o']] = self.vmf.create_ent('info_node')
+            else:
+                self.slots[a['o']] = self.vmf.create_ent('info_node', **{spell: self.text(a['k'])})
+        elif op == 'copy':
+            self.slots[a['p']] = self.slots[a['o']].copy()
+        elif op == 'add':
+            if self.n % 2:
+                self.vmf.add_ent(self.slots[a['o']])
+            else:
+                self.vmf.add_ents([self.slots[a['o']]])
+        elif op == 'remove':
+            if self.n % 2:
+                self.vmf.remove_ent(self.slots[a['o']])
+            else:
+                self.slots[a['o']].remove()
+        elif op == 'set':
+            self.slots[a['o']][['nodeid', 'NodeId'][self.n % 2]] = self.text(a['k'])
+        elif op == 'del':
+            del self.slots[a['o']][['nodeid', 'NODEID'][self.n % 2]]
+        elif op == 'destroy':
+            self.slots[a['o']] = None
+        else:
+            raise ValueError(op)
+
+
+def node_edges(edge_file: str, out: hlib.RecWriter, stats: dict) -> None:
+    """Every transition of the NodeId model, reached by a shortest path, on real objects."""
+    edges = json.load(open(edge_file))
+    gc.freeze()
+    key = lambda s: json.dumps(s, sort_keys=True)
+    # TLC (one worker, breadth first) prints the edges of the initial state first; the empty map is
+    # also reachable again (everything destroyed), so the root has to be named
+    paths = hlib.bfs_paths(edges, key, init_key=key(edges[0]['s']))
+    slots = sorted(edges[0]['s']['ents'])
+    for e in edges:
+        w = NodeWorld(slots)
+        for a in paths[key(e['s'])]:
+            w.apply(a)
+        pre = w.project()
+        w.apply(e['a'])
+        out.write({'k': 'node', 'pre': pre, 'a': e['a'], 'post': w.project(),
+                   'sig': {'kind': 'node', 'action': e['a']['op'], 'src': 'edge'},
+                   'hist': paths[key(e['s'])] + [e['a']]})
+        stats['edges_replayed'] = stats.get('edges_replayed', 0) + 1
+
+
+def random_node_steps(out: hlib.RecWriter, rng: random.Random, n_hist: int) -> None:
+    """Longer random histories over more entities and a wider ID range than the model's bounds,
+    every step judged by NodeIdOps from its own logged pre-state."""
+    slots = ['e1', 'e2', 'e3', 'e4', 'e5', 'e6']
+    wishes = [-1, 0, 1, 2, 2, 3, 5, 5, 9, NONNUM]
+    for _ in range(n_hist):
+        w = NodeWorld(slots)
+        hist = []
+        for _ in range(rng.randint(4, 30)):
+            st = w.project()['ents']
+            none = [o for o in slots if st[o]['w'] == 'none']
+            some = [o for o in slots if st[o]['w'] != 'none']
+            outs = [o for o in slots if st[o]['w'] == 'out']
+            r = rng.random()
+            if (r < 0.3 or not some) and none:
+                a = {'op': rng.choice(['create', 'create', 'construct']), 'o': rng.choice(none),
+                     'k': rng.choice(wishes + [NOKEY])}
+            elif r < 0.4 and none and some:
+                a = {'op': 'copy', 'o': rng.choice(some), 'p': rng.choice(none)}
+            elif r < 0.55 and outs:
+                a = {'op': 'add', 'o': rng.choice(outs)}
+            elif r < 0.72 and some:
+                a = {'op': 'remove', 'o': rng.choice(some)}
+            elif r < 0.86 and some:
+                a = {'op': 'set', 'o': rng.choice(some), 'k': rng.choice(wishes)}
+            elif r < 0.92 and some:
+                a = {'op': 'del', 'o': rng.choice(some)}
+            elif outs:
+                a = {'op': 'destroy', 'o': rng.choice(outs)}
+            else:
+                continue
+            pre = w.project()
+            w.apply(a)
+            hist.append(a)
+            out.write({'k': 'node', 'pre': pre, 'a': a, 'post': w.project(),
+                       'sig': {'kind': 'node', 'action': a['op'], 'src': 'random'}, 'hist': list(hist)})
 
 
 def random_fixups(out: hlib.RecWriter, rng: random.Random, n_hist: int) -> None:
@@ -577,6 +775,9 @@ def main() -> None:
     if mode == 'edges':
         out = hlib.RecWriter(sys.argv[4])
         replay_edges(sys.argv[2], sys.argv[3].split(','), out, stats)
+    elif mode == 'nodeedges':
+        out = hlib.RecWriter(sys.argv[3])
+        node_edges(sys.argv[2], out, stats)
     elif mode == 'fixmap':
         out = hlib.RecWriter(sys.argv[3])
         fixmap_edges(sys.argv[2], out)
@@ -588,7 +789,8 @@ def main() -> None:
         idman_histories(out, rng, 3000 if thorough else 300, 4 if thorough else 3)
         random_life(out, rng, 2000 if thorough else 150, 40)
         random_parse(out, rng, 1500 if thorough else 150)
-        random_nodes(out, rng, 1500 if thorough else 150)
+        random_nodes(out, rng, 2500 if thorough else 300)
+        random_node_steps(out, rng, 2500 if thorough else 250)
         random_collapse(out, rng, 600 if thorough else 80)
         random_fixups(out, rng, 3000 if thorough else 300)
     elif mode == 'replay':
